@@ -1,44 +1,30 @@
 /-
-C08 helper lemmas: the Python float operations of the model agree with the F&O / IEEE
-specification of xs:double on the exact-dyadic representation.
+C08 helper lemmas: `round_number` (Decimal quantize half-up / half-down on the magnitude)
+is ⌊x + 1/2⌋ with the IEEE sign of zero, and the comparison functions of model and
+specification coincide.
 -/
 import EPV.Spec.FOSeq
 namespace EPV.Seq
 open EPV.Seq.Spec
 
-theorem pow2_eq (k : Nat) : pow2 k = (2 : Int) ^ k := rfl
-
 theorem pow2_pos (k : Nat) : 0 < (2 : Int) ^ k := Int.pow_pos (by decide)
 
-theorem D.lt_iff (a b : D) : D.lt a b = true ↔ ltD a b := by
-  cases a <;> cases b <;> first | exact decide_eq_true_iff | simp [D.lt, ltD]
-
-theorem D.eqv_iff (a b : D) : D.eqv a b = true ↔ eqD a b := by
-  cases a <;> cases b <;> first | exact decide_eq_true_iff | simp [D.eqv, eqD]
-
-theorem D.le_iff (a b : D) : D.le a b = true ↔ leD a b := by
-  cases a <;> cases b <;> try (simp [D.le, leD, ltD, eqD]; done)
-  rename_i m k m' k'
-  show decide (m * pow2 k' ≤ m' * pow2 k) = true ↔ (m * (2:Int) ^ k' < m' * (2:Int) ^ k ∨ m * (2:Int) ^ k' = m' * (2:Int) ^ k)
-  rw [decide_eq_true_iff]
-  show m * (2:Int) ^ k' ≤ m' * (2:Int) ^ k ↔ _
-  generalize m * (2:Int) ^ k' = x
-  generalize m' * (2:Int) ^ k = y
-  omega
-
-theorem D.add_eq (a b : D) : D.add a b = addD a b := by
-  cases a <;> cases b <;> simp [D.add, addD, pow2]
+theorem D.lt_eq (a b : D) : D.lt a b = ltD a b := rfl
+theorem D.eqv_eq (a b : D) : D.eqv a b = eqD a b := rfl
+theorem D.le_eq (a b : D) : D.le a b = leD a b := rfl
 
 theorem floor_of_decomp (a b q r : Int) (hb : 0 < b) (h : r + b * q = a) (h0 : 0 ≤ r) (h1 : r < b) :
     a / b = q := ((Int.ediv_emod_unique hb).2 ⟨h, h0, h1⟩).1
 
 /-- `Decimal.quantize` half-up / half-down on the magnitude, with the sign put back, is
-`⌊x + 1/2⌋` (ties towards +INF) — the rounding that F&O prescribes for fn:round. -/
+`⌊x + 1/2⌋` (ties towards +INF) — the rounding that F&O prescribes for fn:round —
+including the negative zero for arguments in [-0.5, -0). -/
 theorem roundNumber_eq (d : D) : roundNumber d = roundD d := by
   cases d with
   | nan => rfl
   | ninf => rfl
   | pinf => rfl
+  | nzero => rfl
   | fin m k =>
     simp only [roundNumber, roundD]
     have h2 : (2 : Int) ^ (k + 1) = 2 * (2 : Int) ^ k := by rw [Int.pow_succ]; omega
@@ -49,8 +35,10 @@ theorem roundNumber_eq (d : D) : roundNumber d = roundD d := by
     rw [Int.fdiv_eq_ediv_of_nonneg _ (by omega)]
     have hdm := Nat.div_add_mod m.natAbs p
     have hlt := Nat.mod_lt m.natAbs hp0
-    split
-    · rename_i hm
+    by_cases hm : m > 0
+    · simp only [hm, if_true]
+      have hnot : ¬ ((2 * m + (p : Int)) / (2 * (p : Int)) = 0 ∧ m < 0) := by omega
+      simp only [hnot, if_false]
       congr 1
       unfold quantHalfUp
       have hm' : m = (p : Int) * ((m.natAbs / p : Nat) : Int) + ((m.natAbs % p : Nat) : Int) := by
@@ -64,21 +52,60 @@ theorem roundNumber_eq (d : D) : roundNumber d = roundD d := by
         simp
       · rw [floor_of_decomp _ (2 * (p : Int)) (q : Int) (2 * r + p) (by omega) (by grind) (by omega) (by omega)]
         rfl
-    · rename_i hm
-      congr 1
-      unfold quantHalfDown
-      have hm' : m = -((p : Int) * ((m.natAbs / p : Nat) : Int) + ((m.natAbs % p : Nat) : Int)) := by
-        have : (m.natAbs : Int) = -m := by omega
-        have h3 : ((p * (m.natAbs / p) + m.natAbs % p : Nat) : Int) = (m.natAbs : Int) := by exact_mod_cast hdm
-        push_cast at h3
-        omega
-      generalize m.natAbs / p = q at *
-      generalize m.natAbs % p = r at *
-      rw [hm']
-      split
-      · rw [floor_of_decomp _ (2 * (p : Int)) (-(q : Int) - 1) (3 * p - 2 * r) (by omega) (by grind) (by omega) (by omega)]
-        simp; omega
-      · rw [floor_of_decomp _ (2 * (p : Int)) (-(q : Int)) (p - 2 * r) (by omega) (by grind) (by omega) (by omega)]
-        rfl
+    · simp only [hm, if_false]
+      by_cases hm0 : m = 0
+      · subst hm0
+        have : (p : Int) / (2 * (p : Int)) = 0 :=
+          floor_of_decomp _ (2 * (p : Int)) 0 p (by omega) (by omega) (by omega) (by omega)
+        simp [this]
+      · simp only [hm0, if_false]
+        have hneg : m < 0 := by omega
+        unfold quantHalfDown
+        have hm' : m = -((p : Int) * ((m.natAbs / p : Nat) : Int) + ((m.natAbs % p : Nat) : Int)) := by
+          have : (m.natAbs : Int) = -m := by omega
+          have h3 : ((p * (m.natAbs / p) + m.natAbs % p : Nat) : Int) = (m.natAbs : Int) := by exact_mod_cast hdm
+          push_cast at h3
+          omega
+        generalize m.natAbs / p = q at *
+        generalize m.natAbs % p = r at *
+        by_cases hr : 2 * r > p
+        · simp only [hr, if_true]
+          have hf : (2 * m + (p : Int)) / (2 * (p : Int)) = -(q : Int) - 1 := by
+            rw [hm']
+            exact floor_of_decomp _ (2 * (p : Int)) (-(q : Int) - 1) (3 * p - 2 * r) (by omega) (by grind) (by omega) (by omega)
+          rw [hf]
+          have h1 : q + 1 ≠ 0 := by omega
+          have h2' : ¬ (-(q : Int) - 1 = 0 ∧ m < 0) := by omega
+          simp only [h1, if_false, h2']
+          congr 1
+          simp only [Int.ofNat_eq_natCast]; push_cast; omega
+        · simp only [hr, if_false]
+          have hf : (2 * m + (p : Int)) / (2 * (p : Int)) = -(q : Int) := by
+            rw [hm']
+            exact floor_of_decomp _ (2 * (p : Int)) (-(q : Int)) (p - 2 * r) (by omega) (by grind) (by omega) (by omega)
+          rw [hf]
+          by_cases hq : q = 0
+          · subst hq; simp [hneg]
+          · have h2' : ¬ (-(q : Int) = 0 ∧ m < 0) := by omega
+            simp only [hq, if_false, h2']
+            rfl
+
+/-- integers promoted to xs:double are integral: fn:round leaves them unchanged -/
+theorem roundD_ofInt (n : Int) : roundD (D.ofInt n) = D.ofInt n := by
+  unfold D.ofInt
+  have key : ∀ x : Int, roundD (.fin x 0) = .fin x 0 := by
+    intro x
+    simp only [roundD]
+    have : Int.fdiv (2 * x + (2 : Int) ^ 0) ((2 : Int) ^ (0 + 1)) = x := by
+      rw [Int.fdiv_eq_ediv_of_nonneg _ (by decide)]
+      simp
+      omega
+    rw [this]
+    by_cases hx : x = 0 ∧ x < 0
+    · omega
+    · simp [hx]
+  split
+  · exact key _
+  · split <;> first | exact key _ | rfl
 
 end EPV.Seq
